@@ -99,6 +99,11 @@ def step (p : PS) (i : In) : Except CErr PS :=
 def lineEnds (c : Char) (rest : List Char) : Bool :=
   c = '\n' || (c = '\r' && rest.head? != some '\n')
 
+/-- the record just completed goes in front of the records that follow (an error later in the file is an error) -/
+def consRow (r : List Field) : Except CErr (List (List Field)) → Except CErr (List (List Field))
+  | .error e => .error e
+  | .ok rows => .ok (r :: rows)
+
 /-- `Reader_iternext` over the whole text: a record is complete when, after the EOL of a line, the state is
     START_RECORD again; at end of input a pending field or an open quoted field is still saved (not strict).
     `pending`: characters of an unterminated last line have been processed. -/
@@ -118,10 +123,7 @@ def readFrom (p : PS) (pending : Bool) : List Char → Except CErr (List (List F
         match step p1 .eol with
         | .error e => .error e
         | .ok p2 =>
-          if p2.st = .startRecord then
-            match readFrom reset false cs with
-            | .error e => .error e
-            | .ok rows => .ok (p2.fields :: rows)
+          if p2.st = .startRecord then consRow p2.fields (readFrom reset false cs)
           else readFrom p2 false cs
       else readFrom p1 true cs
 
